@@ -5,3 +5,4 @@ CHECK_DEADLOCK FALSE
 CONSTANTS
   Keys = {1, 2}
   MaxOps = 6
+  MaxInst = 0
